@@ -192,6 +192,41 @@ fn enum_laws(f: Fmt, nd: &ND) -> Option<String> {
         }
         o => return Some(format!("enum parse of {:?} = {}", text, o.short())),
     }
+    // the same classification through the item-wise result (`NarseseOptions`): the flags, and the
+    // task -> sentence -> term cascade of `take_*` calls on ONE value
+    {
+        use narsese::api::NarseseOptions;
+        use narsese::enum_narsese::{Budget, Punctuation, Stamp, Term, Truth};
+        type Opts = NarseseOptions<Budget, Term, Punctuation, Stamp, Truth>;
+        let r = observe(|| -> Result<Option<String>, String> {
+            let mut o: Opts = f.e().parse::<Opts>(&text).map_err(|e| e.to_string())?;
+            let flags = (o.has_task(), o.has_sentence());
+            let want = (kind == "task", kind != "term");
+            if flags != want {
+                return Ok(Some(format!("NarseseOptions of {:?}: has_task / has_sentence = {:?}, expected {:?}", text, flags, want)));
+            }
+            let mut o2 = o.clone();
+            let as_task = o.take_task().is_some();
+            let as_sentence = !as_task && o.take_sentence().is_some();
+            let as_term = !as_task && !as_sentence && o.take_term().is_some();
+            let got = if as_task { "task" } else if as_sentence { "sentence" } else if as_term { "term" } else { "nothing" };
+            if got != kind {
+                return Ok(Some(format!("NarseseOptions of {:?}: the take_task / take_sentence / take_term cascade yields {}, the value is a {}", text, got, kind)));
+            }
+            // the other order on a copy: a sentence taken from a task's items leaves the budget behind
+            let s2 = o2.take_sentence().is_some();
+            if s2 != (kind != "term") || o2.take_budget().is_some() != (kind == "task") {
+                return Ok(Some(format!("NarseseOptions of {:?}: take_sentence / take_budget disagree with the kind {}", text, kind)));
+            }
+            Ok(None)
+        });
+        match r {
+            Obs::Ret(Ok(None)) => {}
+            Obs::Ret(Ok(Some(w))) => return Some(w),
+            Obs::Ret(Err(e)) => return Some(format!("parse::<NarseseOptions>({:?}) = Err({})", text, e)),
+            Obs::Panic(p) => return Some(format!("NarseseOptions handling of {:?} panicked: {}", text, p)),
+        }
+    }
     match lex_parse_canon(f, &text) {
         Out::Ok(c) => {
             if kind_of_canon(&c) != kind {
@@ -383,6 +418,34 @@ fn report(ctx: &mut Ctx, sig: String, what: String, detail: J) {
 }
 
 pub fn run(ctx: &mut Ctx) {
+    // extreme sizes (on a thread with a large stack), as term, sentence and task
+    {
+        let mut idx = 0usize;
+        for f in ALL_FMT {
+            for (ci, (label, t)) in extreme_cases().into_iter().enumerate() {
+                idx += 1;
+                if !ctx.mine(idx) {
+                    continue;
+                }
+                let nd = wrap_rotating(t, ci);
+                ctx.report.eval();
+                ctx.report.bump("family.extreme-sizes");
+                ctx.report.nontrivial(&format!("{}|extreme|{}|{}", f.name(), label, ci % 3));
+                let why = match on_big_stack(move || enum_laws(f, &nd)) {
+                    Some(w) => w,
+                    None => Some("the thread handling the case died".to_string()),
+                };
+                if let Some(w) = why {
+                    report(
+                        ctx,
+                        format!("C15|{}|extreme|{}", f.name(), label),
+                        format!("[{}] extreme case {} ({}): {}", f.name(), label, ["term", "sentence", "task"][ci % 3], w.chars().take(300).collect::<String>()),
+                        J::obj().set("kind", "extreme").set("format", f.name()).set("extreme", label.as_str()).set("wrap", ci as u64),
+                    );
+                }
+            }
+        }
+    }
     let mut rng = ctx.rng(0xC15);
     let n = ctx.share(300_000, 6_000_000);
     for i in 0..n {
@@ -483,6 +546,14 @@ pub fn run(ctx: &mut Ctx) {
 }
 
 pub fn replay(ctx: &mut Ctx, d: &J) -> Option<()> {
+    if let Some(label) = jstr(d, "extreme") {
+        let f = fmt_of(d)?;
+        let nd = wrap_rotating(extreme_from_label(&label)?, d.get("wrap")?.as_i128()? as usize);
+        if let Some(w) = on_big_stack(move || enum_laws(f, &nd)).unwrap_or_else(|| Some("the thread died".into())) {
+            ctx.report.violate(format!("C15|{}|extreme|{}", f.name(), label), w, d.clone());
+        }
+        return Some(());
+    }
     let f = fmt_of(d)?;
     match jstr(d, "model")?.as_str() {
         "enum" => {
